@@ -25,6 +25,8 @@ Preds == { Cmp("eq", nI, IntL(1)), Cmp("ne", sI, NullL), Cmp("eq", bI, BoolL("tr
            Call(Id0("contains"), <<sI, StrL(<<97, 32, 32, 98>>)>>),
            Cmp("eq", Call(Id0("substring"), <<sI, IntL(1), IntL(2)>>), StrL(<<69, 81>>)),
            Cmp("lt", Bin("add", nI, IntL(1)), Lit("Float", "1.5e1")),
+           \* every shape of the exponent: without a fraction, signed
+           Cmp("ge", nI, Lit("Float", "1e2")), Cmp("ne", Bin("mul", nI, Lit("Float", "25e-1")), Lit("Float", "1e+2")),
            Cmp("gt", Bin("mod", Un("neg", nI), IntL(3)), IntL(0)),
            Coll(Id0("cs"), "any", None), Coll(Id0("cs"), "any", Lam(Id0("x"), Cmp("gt", Attr(Id0("x"), "n"), IntL(1)))),
            Coll(Id0("cs"), "all", Lam(Id0("x"), Cmp("ne", Attr(Id0("x"), "n"), NullL))),
